@@ -261,6 +261,7 @@ def gen(rng, idx, tier):
             elif g["name"] != ".notdef" and rng.random() < 0.6:
                 g["anchors"] = [{"name": "top", "x": rng.randint(0, 500), "y": rng.randint(300, 800)}]
     lib = {}
+    only_skipped_categorised = False
     if len(names) >= 3:
         # explicit categories: otherwise feaLib infers GDEF marks from the generated mark lookups,
         # which themselves appear / disappear with the skipped glyphs
@@ -270,6 +271,12 @@ def gen(rng, idx, tier):
                 cats[g["name"]] = "mark"
             elif g["name"] != ".notdef":
                 cats[g["name"]] = "base"
+        if rng.random() < 0.12:
+            # categories that mention ONLY glyphs which are not exported: still 'categories are
+            # defined' (nothing is a base or a mark among the remaining glyphs), with and
+            # without the skip list alike
+            cats = {n: cats.get(n, "base") for n in skip}
+            only_skipped_categorised = True
         lib["public.openTypeCategories"] = cats
     delivery = rng.choice(["arg", "lib", "both"])
     stratum = "static"
@@ -282,7 +289,8 @@ def gen(rng, idx, tier):
         stratum = "interpolatable"
         delivery = "ufolibs"
     return {"stratum": stratum, "fmt": fmt, "lib": rng.choice(["defcon", "ufoLib2"]),
-            "skip": skip, "delivery": delivery, "ufolibs_cut": rng.randint(0, max(0, len(skip) - 1)),
+            "skip": skip, "delivery": delivery, "only_skipped_categorised": only_skipped_categorised,
+            "ufolibs_cut": rng.randint(0, max(0, len(skip) - 1)),
             "decoy": rng.sample(names, min(len(names) - 1, 1)) if delivery == "both" else [],
             "ufo": {"glyphs": glyphs, "kerning": kerning, "groups": groups, "lib": lib,
                     "features": "languagesystem DFLT dflt;\nlanguagesystem latn dflt;\n",
@@ -672,6 +680,8 @@ def run(case):
     bump("ttf_cases" if case["fmt"] == "ttf" else "otf_cases")
     if case["delivery"] == "both":
         bump("arg_overrides_lib")
+    if case.get("only_skipped_categorised"):
+        bump("categories_mention_only_skipped_glyphs")
     if case["delivery"] == "ufolibs":
         bump("master_list_lib_union_cases")
         if case.get("ufolibs_cut", 0) < len(case["skip"]):
